@@ -9,6 +9,12 @@
 // AC0 AC1, PING, PINGF0 / PINGF1 (COM_PING whose backend ping fails on the pinned connection
 // of slice 0 / 1), RELOAD (namespace configuration change while the client is idle: change
 // index +1, new pools), DISC (client disconnects), QUIT (COM_QUIT).
+// Every command except DISC/QUIT also exists in "reload commits DURING this command" variants:
+// "OP~w" (the prepared reload is committed while the proxy writes the answer, i.e. after the
+// command ran, before Session.Run's post-command checks and next loop iteration) and
+// "OP~s<k>#<n>" (committed inside the n-th backend call - get / use_db / execute / begin /
+// commit / rollback / set autocommit / ping - on the pinned pool group of slice k, n = 0..2).
+// A position that the command does not reach degenerates to "OP, RELOAD" (merged by the key).
 //
 // Oracle: see type monitor.
 package main
@@ -44,6 +50,24 @@ var sqlOf = map[string]string{
 
 var alphabetRW = []string{"R0", "W0", "RS", "WS", "W1", "BEGIN", "COMMIT", "ROLLBACK", "AC0", "AC1", "PING", "PINGF0", "PINGF1", "RELOAD", "DISC", "QUIT"}
 var alphabetRO = []string{"R0", "RS", "BEGIN", "COMMIT", "ROLLBACK", "AC0", "AC1", "PING", "PINGF0", "PINGF1", "RELOAD", "DISC", "QUIT"}
+
+// midOps are the commands that have "reload commits during the command" variants.
+var midOps = map[string]bool{"R0": true, "W0": true, "RS": true, "WS": true, "W1": true, "BEGIN": true, "COMMIT": true, "ROLLBACK": true,
+	"AC0": true, "AC1": true, "PING": true}
+
+var midPoints = []string{"w", "s0#0", "s0#1", "s0#2", "s1#0", "s1#1", "s1#2"}
+
+func withMid(alpha []string) []string {
+	out := append([]string(nil), alpha...)
+	for _, op := range alpha {
+		if midOps[op] {
+			for _, p := range midPoints {
+				out = append(out, op+"~"+p)
+			}
+		}
+	}
+	return out
+}
 
 type config struct {
 	User string `json:"user"`
@@ -125,11 +149,31 @@ func replay(cfg config, hist []string, wantTrace bool) outcome {
 			}
 			continue
 		}
+		// "reload commits during this command" variant
+		mid := ""
+		if k := strings.Index(op, "~"); k >= 0 {
+			op, mid = op[:k], op[k+1:]
+		}
+		var hooks []sessrig.Fault
+		if mid != "" {
+			if err := w.PrepareReload(); err != nil {
+				ev.Fatalf("prepare reload: %v", err)
+			}
+			if mid == "w" {
+				a.CommitOnWrite()
+			} else {
+				sl := "slice-" + mid[1:2]
+				n := int(mid[3] - '0')
+				for _, role := range []string{"master", "slave"} {
+					hooks = append(hooks, sessrig.Fault{Pool: sl + "/" + role, Nth: n, Kind: "commit_reload"})
+				}
+			}
+		}
 		var resp sessrig.Resp
 		faulted := false
 		switch op {
 		case "PING":
-			resp = a.Ping()
+			resp = a.Ping(hooks...)
 		case "PINGF0":
 			resp = a.Ping(sessrig.Fault{Pool: "slice-0/master", Nth: 0, Kind: "err"}, sessrig.Fault{Pool: "slice-0/slave", Nth: 0, Kind: "err"})
 			faulted = len(resp.Fired) > 0
@@ -141,7 +185,13 @@ func replay(cfg config, hist []string, wantTrace bool) outcome {
 		case "QUIT":
 			resp = a.Quit()
 		default:
-			resp = a.Do(mysql.ComQuery, []byte(sqlOf[op]))
+			resp = a.Do(mysql.ComQuery, []byte(sqlOf[op]), hooks...)
+		}
+		// did the reload commit while the command was running? If the hook point was not
+		// reached the reload commits now, between this command and the next one.
+		committedDuring := mid != "" && !w.ReloadPending()
+		if mid != "" && !committedDuring {
+			w.CommitReload()
 		}
 		led := w.Ledger()
 		step := w.Step()
@@ -152,7 +202,7 @@ func replay(cfg config, hist []string, wantTrace bool) outcome {
 			}
 		}
 		if wantTrace {
-			out.trace = append(out.trace, stepTrace{Ev: op, Resp: fmt.Sprintf("%s %d %s ended=%v", resp.Kind, resp.ErrCode, resp.ErrMsg, resp.Ended), Led: sessrig.Describe(entries)})
+			out.trace = append(out.trace, stepTrace{Ev: hist[i], Resp: fmt.Sprintf("%s %d %s ended=%v reload_committed_during=%v", resp.Kind, resp.ErrCode, resp.ErrMsg, resp.Ended, committedDuring), Led: sessrig.Describe(entries)})
 		}
 		when := "steady"
 		if m.reloadSeen {
@@ -163,7 +213,7 @@ func replay(cfg config, hist []string, wantTrace bool) outcome {
 		mk := func(kind, format string, args ...interface{}) outcome {
 			out.res.Violation = fmt.Sprintf("step %d %s: %s (%s, %s): ", i, op, kind, phase(m), when) + fmt.Sprintf(format, args...)
 			out.res.Features = map[string]string{"kind": kind, "event": op, "phase": phase(m), "when": when, "after": m.after,
-				"ping_failed": fmt.Sprint(faulted), "user": cfg.User}
+				"ping_failed": fmt.Sprint(faulted), "user": cfg.User, "reload_during_command": fmt.Sprint(committedDuring)}
 			return out
 		}
 		ended := resp.Ended || a.Ended
@@ -212,6 +262,7 @@ func replay(cfg config, hist []string, wantTrace bool) outcome {
 			m.after = "AC1_in_explicit_tx"
 		}
 		closedL := map[int]int{}
+		droppedEarly := 0
 		recycled := map[int]int{}
 		oldPins := map[string]int{}
 		for s, l := range m.pins {
@@ -244,6 +295,14 @@ func replay(cfg config, hist []string, wantTrace bool) outcome {
 					}
 					if ended {
 						continue // released because the proxy ended the session: checked below
+					}
+					if sl, ok := isPin(e.Lease); ok && committedDuring && !wasOpen && closedL[e.Lease] >= 1 {
+						// the configuration changed while this command ran and the client is outside a
+						// transaction: dropping the pins (closed, then given back) right away is what
+						// the property asks for
+						delete(m.pins, sl)
+						droppedEarly++
+						continue
 					}
 					if _, ok := isPin(e.Lease); ok {
 						return mk("pin_released", "the pinned connection for %s (%s) was given back to the pool although the client is still connected", e.Slice, e.Pool)
@@ -333,6 +392,16 @@ func replay(cfg config, hist []string, wantTrace bool) outcome {
 		if len(oldPins) == 2 && !dropAll {
 			out.facts = append(out.facts, "two_pins_reused")
 		}
+		if committedDuring {
+			switch {
+			case droppedEarly > 0:
+				out.facts = append(out.facts, "reload_during_command_drops_pins_at_once")
+			case wasOpen && len(oldPins) > 0:
+				out.facts = append(out.facts, "reload_during_command_in_tx")
+			case len(m.pins) > 0:
+				out.facts = append(out.facts, "reload_during_command_pins_survive_until_next_command")
+			}
+		}
 		// advance the client's view
 		if m.reloadSeen {
 			sinceReload = 0
@@ -341,6 +410,12 @@ func replay(cfg config, hist []string, wantTrace bool) outcome {
 		}
 		m.reloadSeen = false
 		m.reloads = 0
+		if mid != "" {
+			// whether it landed during the command or right after it: the NEXT command is the
+			// first one after the configuration change
+			m.reloadSeen = true
+			m.reloads = 1
+		}
 		switch op {
 		case "BEGIN":
 			m.explicit = true
@@ -360,7 +435,7 @@ func replay(cfg config, hist []string, wantTrace bool) outcome {
 			m.after = ""
 		}
 		if i == len(hist)-1 {
-			out.res.Outcome = fmt.Sprintf("%s=%s ended=%v pins=%d %s", op, resp.Kind, ended, len(m.pins), when)
+			out.res.Outcome = fmt.Sprintf("%s=%s ended=%v pins=%d %s during=%v", op, resp.Kind, ended, len(m.pins), when, committedDuring)
 		}
 		if ended {
 			out.res.Stop = true
@@ -470,11 +545,12 @@ func main() {
 		if cfg.User == sessrig.UserRO {
 			alpha = alphabetRO
 		}
+		alphaMid := withMid(alpha)
 		spec := xstate.Spec[string]{
 			MaxDepth: depth,
 			Workers:  16,
 			Stop:     r.TimeUp,
-			Enabled:  func(h []string) []string { return alpha },
+			Enabled:  func(h []string) []string { return alphaMid },
 			Replay: func(h []string) xstate.Result {
 				o := replay(cfg, h, false)
 				mu.Lock()
@@ -557,7 +633,8 @@ func main() {
 	if len(flaky) > 0 && r.Violations() == 0 {
 		ev.Fatalf("%d histories gave a verdict that did not reproduce in 5 runs, e.g. %s", len(flaky), flaky[0])
 	}
-	for _, f := range []string{"reload_in_tx_disconnects", "reload_outside_tx_drops_pins", "two_pins_reused"} {
+	for _, f := range []string{"reload_in_tx_disconnects", "reload_outside_tx_drops_pins", "two_pins_reused", "reload_during_command_drops_pins_at_once",
+		"reload_during_command_in_tx", "reload_during_command_pins_survive_until_next_command"} {
 		if facts[f] == 0 && !r.TimeUp() && r.Violations() == 0 {
 			ev.Fatalf("vacuous run: fact %q never observed", f)
 		}
